@@ -263,7 +263,7 @@ func run(t *vlib.T) {
 			if t.Thorough() && sc.thoroughK > 0 {
 				maxK = sc.thoroughK
 			}
-			if k > maxK {
+			if k > maxK || (sc.raceOnly && k > 0) {
 				continue
 			}
 			for _, mode := range sc.modes {
@@ -370,6 +370,13 @@ func freeRunningRaceCases(t *vlib.T) {
 			i, sc, mode := i, sc, mode
 			t.Case(fmt.Sprintf("free-running-race/%s/%s", sc.name, mode), func() *vlib.Outcome {
 				o := &vlib.Outcome{Nontrivial: true, Class: "free-running", Counters: map[string]int64{}}
+				iters := iters
+				if sc.raceIters != "" {
+					iters = sc.raceIters
+					if t.Thorough() {
+						iters = sc.raceItersT
+					}
+				}
 				cmd := exec.Command(bin, fmt.Sprint(i), mode, iters)
 				cmd.Env = append(os.Environ(), "GORACE=halt_on_error=1 exitcode=66", "GOMAXPROCS=4")
 				out, err := cmd.CombinedOutput()
